@@ -39,7 +39,20 @@ type target struct {
 	IgnoreVars []string       `json:"ignore_vars"` // locals that only feed dropped results
 	Fuel       int            `json:"fuel"`        // loop fuel (default 70)
 	NamedTypes map[string]string `json:"named_types"` // named integer types -> underlying, e.g. "bit" -> "bool"
+	Opaque     map[string]opaqueSpec `json:"opaque_calls"` // calls whose result is an extra parameter of the translation (a database read, ...)
+	Slices     map[string]sliceSpec  `json:"slices"`       // slice-typed parameters: element fields that are read
 	Results    []string       `json:"-"`
+}
+
+// a call such as databaseObj.GetAlertHistoryByAlertID(...) whose arguments are NOT translated: its first result becomes
+// the parameter Bind of the generated function (for every value it may return), its error result is nil
+type opaqueSpec struct {
+	Bind string `json:"bind"`
+}
+
+// a slice of structs of which only the listed integer fields are read: list Z (one field) or a list of tuples
+type sliceSpec struct {
+	Fields []fieldSpec `json:"fields"` // name = field name, type = go integer type
 }
 
 type constSrc struct {
@@ -216,8 +229,18 @@ func (v *env) expr(e ast.Expr, want string) (string, string) {
 			}
 			return a, "uint64"
 		}
-		if id, ok := x.Fun.(*ast.Ident); ok {
-			if sg, ok := sigs[id.Name]; ok && !sg.stateful && !sg.effects {
+		if id, ok := x.Fun.(*ast.Ident); ok && id.Name == "len" && len(x.Args) == 1 {
+			if a, ok := x.Args[0].(*ast.Ident); ok && strings.HasPrefix(v.types[a.Name], "slice:") {
+				return "(Z.of_nat (length " + a.Name + "))", "int"
+			}
+			fail("len of something that is not a declared slice")
+		}
+		fname := selKey(x.Fun)
+		if i := strings.LastIndex(fname, "."); i >= 0 {
+			fname = fname[i+1:]
+		}
+		if fname != "" {
+			if sg, ok := sigs[fname]; ok && !sg.stateful && !sg.effects {
 				var args []string
 				k := 0
 				for i, a := range x.Args {
